@@ -333,7 +333,7 @@ def _guess_of(x):
     return x.guess if isinstance(x, prior.Prior) else x
 
 
-def _algebra(depth2):
+def _algebra(depth2, op2s=('add', 'rsub', 'mul', 'rdiv', 'neg')):
     def body(c):
         l, u = c.real("l1"), c.real("u1")
         l2, u2 = c.real("l2"), c.real("u2")
@@ -365,8 +365,8 @@ def _algebra(depth2):
         expect = op(_guess_of(p), _guess_of(other))
         c.ensures("guess-commutes", c.eq(_guess_of(t), expect))
         if depth2:
-            op2name = c.choice("op2", ['add', 'rsub', 'mul', 'rdiv'])
-            op2 = OPS[op2name]
+            op2name = c.choice("op2", list(op2s))
+            op2 = OPS[op2name] if op2name != 'neg' else (lambda x, _k: -x)
             k2 = c.real("k2")
             if op2name in ('mul', 'rdiv'):
                 c.requires(k2 != 0)
@@ -379,7 +379,7 @@ def _algebra(depth2):
                 c.ensures("guess-commutes-depth2", c.eq(_guess_of(t2), op2(expect, k2)))
         c.ensures("derived-is-prior", isinstance(t, prior.Prior))
     body.__doc__ = ("arithmetic on priors gives derived priors whose guess is the same operation applied to the base "
-                    "guesses (operator expressions of depth %d)" % (2 if depth2 else 1))
+                    "guesses (operator expressions of depth %d%s)" % (2 if depth2 else 1, ", outer operator %s" % "/".join(op2s) if depth2 else ""))
     return body
 
 
@@ -389,8 +389,11 @@ contract("C14", "algebra_guess", [P + "Prior.__add__", P + "Prior.__mul__", P + 
          bounded="operator expressions of depth 1 over {prior, number} operands, 10 operators enumerated",
          max_paths=400)(_algebra(False))
 contract("C14", "algebra_guess_depth2", [P + "TransformedPrior.guess"],
-         bounded="operator expressions of depth 2 (outer operator from {+, k-, *, k/})", max_paths=1500,
+         bounded="operator expressions of depth 2 (outer operator from {+, k-, *, k/, unary -})", max_paths=1900,
          tier='thorough')(_algebra(True))
+contract("C14", "algebra_guess_negated", [P + "Prior.__neg__", P + "TransformedPrior.guess", P + "TransformedPrior.__init__"],
+         bounded="operator expressions of depth 2 whose outer operator is unary minus; inner operator from the 10 enumerated, operand a "
+                 "symbolic number (every value, -1 included) or a second prior", max_paths=500)(_algebra(True, op2s=('neg',)))
 
 
 @contract("C14", "algebra_samples", [P + "TransformedPrior.sample", P + "Prior.__add__", P + "Prior.__mul__"],
